@@ -479,7 +479,7 @@ type replay struct {
 	Backing string      `json:"backing,omitempty"`
 	Pre     string      `json:"pre,omitempty"`
 	Actions []action    `json:"actions,omitempty"`
-	Conc    *concReplay `json:"concurrent,omitempty"` // set: a history of the concurrent part (concurrent_test.go)
+	Conc    *concReplay `json:"concurrent,omitempty"`    // set: a history of the concurrent part (concurrent_test.go)
 	Large   *largeCase  `json:"large_payload,omitempty"` // set: a case of the large-payload part (large_test.go)
 }
 
